@@ -1741,6 +1741,44 @@ def r20_10(ctx: Ctx, rep: Report) -> None:
     rep.floor(8, "constructors")
 
 
+def group_never_built_empty(ctx: Ctx, rep: Report, rid: str = "R20.12") -> None:
+    """An address group built from text has at least one member (its own constructor refuses the bare header it would
+    render otherwise): the store of the parsed members in `AddrGroup.line` is dominated by a test of THAT list being
+    empty whose empty branch raises - a test that is also satisfied by the raw lines lets a group through whose every
+    member line was invalid."""
+    rep.rule(rid)
+    f = ctx.func("AddrGroup.line.setter")
+    cfg = ctx.cfg(f)
+    stores = [nd for nd in cfg.live if nd.kind == "stmt" and isinstance(nd.ast, ast.Assign) and any(isinstance(t, ast.Attribute) and src(t.value) == "self" and t.attr in ("items", "_items") for t in nd.ast.targets) and isinstance(nd.ast.value, ast.Name)]
+    rep.instance()
+    if not stores:
+        rep.note(f"{rid} AddrGroup.line setter does not store a local list of parsed members (not judged)")
+        return
+    st = stores[-1]
+    acc = st.ast.value.id
+    ok = False
+    for c in cfg.live:
+        if c.kind != "cond" or not cfg.dominates(c, st):
+            continue
+        t = c.ast
+        empty_lab = None
+        if isinstance(t, ast.UnaryOp) and isinstance(t.op, ast.Not) and isinstance(t.operand, ast.Name) and t.operand.id == acc:
+            empty_lab = "T"
+        elif isinstance(t, ast.Name) and t.id == acc:
+            empty_lab = "F"
+        elif isinstance(t, ast.Compare) and len(t.ops) == 1 and src(t.left) == f"len({acc})" and isinstance(t.comparators[0], ast.Constant) and t.comparators[0].value == 0 and isinstance(t.ops[0], ast.Eq):
+            empty_lab = "T"
+        if empty_lab is None:
+            continue
+        succ = c.succs(empty_lab)
+        if succ and st not in {x for s_ in succ for x in cfg.reachable(s_, labels_avoid=("exc",)) | {s_}}:
+            ok = True
+    if ok:
+        rep.ok(f"AddrGroup.line setter: {snippet(st.ast, 40)}", f"reached only when `{acc}` is not empty (the empty branch raises)", where=where(f, st.ast))
+    else:
+        rep.violation("AddrGroup.line.setter", snippet(st.ast, 50), f"the parsed member list `{acc}` can be stored empty: a group whose every member line was invalid is built, and it renders a bare header that its own constructor refuses", where(f, st.ast), inp="AddrGroup('object-group network WEB\\n description web servers')")
+
+
 def _is_empty_literal(e: Optional[ast.AST]) -> bool:
     return isinstance(e, (ast.List, ast.Tuple)) and not e.elts
 
@@ -1774,6 +1812,17 @@ def run(ctx: Ctx, rep: Report, tier: str) -> None:
     sub01 = Report("C20")
     option_partition(ctx, sub01)
     rep.absorb(sub01, "R20.11")
+    group_never_built_empty(ctx, rep)
+    # R20.13 premises of "what it returns renders text the same constructor accepts again", as far as they are visible in
+    # the shape of the code: no reader bounds the length of a text the writer can lengthen (C06 R06.9); every protocol name
+    # the writer can choose is in the reader's grammar (C09 R09.13)
+    from .c06 import length_gates
+    from .c09 import grammar_reads_protocols
+
+    sub13 = Report("C20")
+    length_gates(ctx, sub13)
+    grammar_reads_protocols(ctx, sub13)
+    rep.absorb(sub13, "R20.13")
     # R20.7: what a constructor stores renders text it accepts again — structural parts decided elsewhere
     from .c06 import normaliser_fixed_point
     from .c08 import validated_is_returned
